@@ -522,3 +522,144 @@ Definition validate_listeners (st : state) (k : nat) : bool :=
 (* ---- the code before the two fixes (refutation witnesses only) ---- *)
 Definition add_v0star := add_gen true false.   (* fetch rejects a lone "*" (before 8a739ee) *)
 Definition add_v0grp := add_gen false true.    (* group indexes not rebased (before d78f562) *)
+
+(* ---- Register, OnRegister callbacks, AddListener(nil) ----
+   A layer on top of [run_op]: which muxes are registered to a service (only a top-level mux can be:
+   Register panics on a mounted mux and Mount panics on a registered one), which handlers carry an
+   OnRegister callback, and the callbacks an operation fires: (full pattern, handler id).
+   FullPath of a mux = the path of its top-level mux ++ the literal tokens down to its root. *)
+Definition ENilListener : N := 14.  (* "nil event handler" *)
+Definition ERegistered : N := 15.   (* "res: already registered to a service" *)
+
+Definition event := (bytes * N)%type.
+Record xstate := XS { xs_st : state; xs_reg : list bool; xs_cb : list N }.
+
+Definition full_path (st : state) (k : nat) : bytes :=
+  match top_of st k with
+  | Some (t, a) => join (split_pattern (path_of st t) ++ a)
+  | None => []
+  end.
+
+(* pathSliceToString: the traversed path with "$name" put back at the params' positions; None = index out of range *)
+Fixpoint set_tok (i : nat) (x : bytes) (l : list bytes) : option (list bytes) :=
+  match l, i with
+  | [], _ => None
+  | _ :: r, O => Some (x :: r)
+  | y :: r, S i' => match set_tok i' x r with Some r' => Some (y :: r') | None => None end
+  end.
+Fixpoint subst_params (path : list bytes) (ps : list pparam) (mi : nat) : option (list bytes) :=
+  match ps with
+  | [] => Some path
+  | (name, idx) :: r => match set_tok (idx + mi) (dollar :: name) path with
+                        | Some p' => subst_params p' r mi
+                        | None => None
+                        end
+  end.
+(* traverse + the OnRegister test of callOnRegister: (relative pattern tokens, handler id) *)
+Fixpoint cb_node (cbs : list N) (n : node) (path : list bytes) (mi : nat) : list (option (list bytes) * N) :=
+  let 'Node hs pp lits pa wi mo ls := n in
+  let mi' := if mo then length path else mi in
+  (match hs with
+   | Some (hid, _) => if existsb (N.eqb hid) cbs then [(subst_params path (node_plist n) mi, hid)] else []
+   | None => [] end) ++
+  (match wi with Some c => cb_node cbs c (path ++ [[gt]]) mi' | None => [] end) ++
+  (match pa with Some c => cb_node cbs c (path ++ [[star]]) mi' | None => [] end) ++
+  (fix go (l : list (bytes * node)) : list (option (list bytes) * N) :=
+     match l with [] => [] | (k, c) :: r => cb_node cbs c (path ++ [k]) mi' ++ go r end) lits.
+Fixpoint collect_events (pre : list bytes) (l : list (option (list bytes) * N)) : option (list event) :=
+  match l with
+  | [] => Some []
+  | (Some toks, hid) :: r => match collect_events pre r with
+                             | Some ev => Some ((join (pre ++ toks), hid) :: ev)
+                             | None => None end
+  | (None, _) :: _ => None
+  end.
+(* m.callOnRegister() for mux k *)
+Definition cb_events (st : state) (cbs : list N) (k : nat) : option (list event) :=
+  match root_of st k with
+  | Some s => collect_events (split_pattern (full_path st k)) (cb_node cbs s [] 0)
+  | None => Some []
+  end.
+Definition top_registered (st : state) (rg : list bool) (k : nat) : bool :=
+  match top_of st k with Some (t, _) => nth t rg false | None => false end.
+Definition pad_reg (st : state) (rg : list bool) : list bool := rg ++ repeat false (length st - length rg).
+
+Inductive xop :=
+| XBase (o : op)
+| XHandleR (m : nat) (pat : bytes) (hid : N) (grp : bytes) (par : bool)   (* Handle with an OnRegister option *)
+| XRegister (m : nat)                                                     (* m.Register(service) *)
+| XListenNil (m : nat) (pat : bytes)                                      (* m.AddListener(pat, nil) *)
+(* Handle of a Handler with one entry in its Listeners map (and possibly an OnRegister callback):
+   add registers the handler, then calls AddListener, then the callback *)
+| XHandleL (m : nat) (pat : bytes) (hid : N) (grp : bytes) (par : bool) (onreg : bool) (lpat : bytes) (l : lid).
+
+Definition xrun (xs : xstate) (o : xop) : outcome xstate * list event :=
+  let 'XS st rg cbs := xs in
+  match o with
+  | XListenNil _ _ => (Panic ENilListener xs, [])
+  | XRegister k =>
+    match nth_error st k with
+    | None => (Panic ENoMux xs, [])
+    | Some (_, Sub _ _) => (Panic EMounted xs, [])
+    | Some (_, Top _) =>
+      if nth k rg false then (Panic ERegistered xs, [])
+      else let xs' := XS st (set_nth k true rg) cbs in
+           match cb_events st cbs k with
+           | Some ev => (Ok xs', ev)
+           | None => (Panic EInternal xs', [])
+           end
+    end
+  | XHandleR m pat hid grp par =>
+    match do_handle st m pat hid grp par with
+    | Ok st' => (Ok (XS st' rg (hid :: cbs)),
+                 if top_registered st' rg m then [(merge_pattern (full_path st' m) pat, hid)] else [])
+    | Panic e st' => (Panic e (XS st' rg cbs), [])
+    end
+  | XHandleL m pat hid grp par onreg lpat l =>
+    match do_handle st m pat hid grp par with
+    | Ok st1 =>
+      let cbs' := if onreg then hid :: cbs else cbs in
+      match do_listen st1 m lpat l with
+      | Ok st2 => (Ok (XS st2 rg cbs'),
+                   if onreg && top_registered st2 rg m then [(merge_pattern (full_path st2 m) pat, hid)] else [])
+      | Panic e st2 => (Panic e (XS st2 rg cbs'), [])
+      end
+    | Panic e st' => (Panic e (XS st' rg cbs), [])
+    end
+  | XBase b =>
+    let blocked := match b with OMount _ _ sub => nth sub rg false | _ => false end in
+    if blocked then (Panic ERegistered xs, [])
+    else match run_op st b with
+         | Ok st' =>
+           let rg' := pad_reg st' rg in
+           match b with
+           | OMount m _ sub =>
+             if top_registered st' rg' m then
+               match cb_events st' cbs sub with
+               | Some ev => (Ok (XS st' rg' cbs), ev)
+               | None => (Panic EInternal (XS st' rg' cbs), [])
+               end
+             else (Ok (XS st' rg' cbs), [])
+           | _ => (Ok (XS st' rg' cbs), [])
+           end
+         | Panic e st' => (Panic e (XS st' (pad_reg st' rg) cbs), [])
+         end
+  end.
+
+Fixpoint xreplay (xs : xstate) (ops : list xop) : xstate * list (bool * list event) :=
+  match ops with
+  | [] => (xs, [])
+  | o :: r => let '(out, ev) := xrun xs o in
+              let '(xs', fl) := xreplay (out_state out) r in (xs', (negb (is_ok out), ev) :: fl)
+  end.
+
+(* ---- Mux.Contains with the test "is the handler with this id" ---- *)
+Definition hs_is (hid : N) (n : node) : bool := match node_hs n with Some (h, _) => h =? hid | None => false end.
+Fixpoint contains_hid (hid : N) (n : node) : bool :=
+  let 'Node _ _ lits pa wi _ _ := n in
+  (match wi with Some w => hs_is hid w | None => false end) ||
+  (match pa with Some c => hs_is hid c || contains_hid hid c | None => false end) ||
+  (fix go (l : list (bytes * node)) : bool :=
+     match l with [] => false | (_, c) :: r => hs_is hid c || contains_hid hid c || go r end) lits.
+Definition mux_contains (st : state) (k : nat) (hid : N) : bool :=
+  match root_of st k with Some r => hs_is hid r || contains_hid hid r | None => false end.
